@@ -14,6 +14,7 @@ from harness.drive import run_all
 from checks import msgclient
 
 EAD = 128
+NEVER = 100000000  # GiveUp for schedules in which every exchange is acknowledged in time
 
 
 def mixed_schedule(rng):
@@ -54,11 +55,29 @@ def mixed_schedule(rng):
                 triggers.append({"on": {"q": q, "copy": 1}, "delay": d, "rx": {"r": r, "ty": "ACK", "code": 0, "mid": {"of": q}}})
             triggers.append({"on": {"q": q, "copy": 1}, "delay": d + rng.choice([1, 300]),
                              "rx": {"r": r, "ty": "NON", "code": 69, "mid": 30000 + q, "tok": {"of": q}}})
-    # the peer acknowledges every separate CON response, sooner or later (always before the first retransmission)
-    for nth in range(1, 12):
-        triggers.append({"on": {"tx": {"ty": "CON", "cls": "resp", "nth": nth}}, "delay": rng.choice([1, 5, 100, 800, 1900]),
-                         "rx": {"ty": "ACK", "code": 0, "mid": "same"}})
-    return {"tuning": {"EMPTY_ACK_DELAY": 0.125}, "mid0": rng.randint(0, 65535), "tok0": rng.randint(0, 60000),
+    lossy = rng.random() < 0.4
+    if lossy:
+        # the peer may also reset a separate CON response or never acknowledge it: with ACK_RANDOM_FACTOR = 1 and
+        # MAX_RETRANSMIT = 1 the exchange is given up exactly 3 x ACK_TIMEOUT after its first transmission, what is
+        # held back behind it is dropped and the requests among it fail
+        for tr in triggers:
+            if tr["rx"]["ty"] == "ACK" and rng.random() < 0.3:
+                tr["rx"]["ty"] = "RST" if rng.random() < 0.5 else "ACK"
+                if rng.random() < 0.5:
+                    tr["rx"]["mid"] = 1  # never matches: the request's acknowledgement is lost
+        for nth in range(1, 12):
+            fate = rng.choice(["ack", "ack", "rst", "never"])
+            if fate != "never":
+                triggers.append({"on": {"tx": {"ty": "CON", "cls": "resp", "nth": nth}}, "delay": rng.choice([1, 5, 100, 800, 1900, 2500, 5000]),
+                                 "rx": {"ty": "ACK" if fate == "ack" else "RST", "code": 0, "mid": "same"}})
+        tuning = {"EMPTY_ACK_DELAY": 0.125, "ACK_TIMEOUT": 2.0, "ACK_RANDOM_FACTOR": 1.0, "MAX_RETRANSMIT": 1}
+    else:
+        # the peer acknowledges every separate CON response, sooner or later (always before the first retransmission)
+        for nth in range(1, 12):
+            triggers.append({"on": {"tx": {"ty": "CON", "cls": "resp", "nth": nth}}, "delay": rng.choice([1, 5, 100, 800, 1900]),
+                             "rx": {"ty": "ACK", "code": 0, "mid": "same"}})
+        tuning = {"EMPTY_ACK_DELAY": 0.125}
+    return {"tuning": tuning, "giveup": 3 * 2048 if lossy else NEVER, "mid0": rng.randint(0, 65535), "tok0": rng.randint(0, 60000),
             "nremotes": 3, "handlers": handlers, "steps": steps, "triggers": triggers, "horizon": 60 * 1024}
 
 
@@ -82,9 +101,17 @@ def phase2(rep, args):
             raise MachineryError("driver failed on schedule %s\n%s" % (json.dumps(s)[:400], res["error"]))
     traces = [r["events"] for r in results]
     queued = 0
+    verdicts = [None] * len(traces)
     with tlc.Workdir() as wd:
-        verdicts, r = tracecheck.validate(wd, "NstartTrace", "NstartTrace.cfg.tmpl", {}, traces)
+        for gu in sorted({s["giveup"] for s in scheds}):
+            idxs = [i for i, s in enumerate(scheds) if s["giveup"] == gu]
+            vs, r = tracecheck.validate(wd, "NstartTrace", "NstartTrace.cfg.tmpl", {"GiveUp": gu}, [traces[i] for i in idxs])
+            for i, v in zip(idxs, vs):
+                verdicts[i] = v
+    gaveup = 0
     for i, v in enumerate(verdicts):
+        if scheds[i]["giveup"] != NEVER and any(e["k"] == "done" and e["cls"] == "timeout" for e in traces[i]):
+            gaveup += 1
         # a separate CON response that had to wait for an earlier exchange
         first = {}
         for e in traces[i]:
@@ -99,6 +126,7 @@ def phase2(rep, args):
                           {"schedule": scheds[i], "events": traces[i], "meta": results[i]["meta"]})
     rep.coverage["mixed_request_response_traces_validated"] = len(traces)
     rep.coverage["mixed_traces_with_separate_con_responses"] = queued
+    rep.coverage["mixed_traces_with_a_request_failed_by_a_given_up_exchange"] = gaveup
     rep.coverage["traces_validated_against_impl"] = rep.coverage.get("traces_validated_against_impl", 0) + len(traces)
     rep.coverage["samples"].append({"schedule": scheds[0], "events": traces[0][:14]})
 
